@@ -1,4 +1,4 @@
 (* name -> extracted entry points *)
 open Gfext
 let gens = [ ("C05", c05_gen); ("C03", c03_gen); ("C06", c06_gen); ("C04", c04_gen); ("C10", c10_gen); ("C09", c09_gen); ("C13", c13_gen); ("C14", c14_gen); ("C16", c16_gen); ("C19", c19_gen); ("C15", c15_gen); ("C17", c17_gen); ("C11", c11_gen) ]
-let runs = [ ("C05", c05_run); ("C03", c03_run); ("C06", c06_run); ("C04", c04_run); ("C10", c10_run); ("C09", c09_run); ("C13", c13_run); ("C14", c14_run); ("C16", c16_run); ("C16P", c16_run_pinned); ("C19", c19_run); ("C15", c15_run); ("C17", c17_run); ("C08T", c08t_run); ("C11", c06_run); ("C02", c02_run) ]
+let runs = [ ("C05", c05_run); ("C03", c03_run); ("C06", c06_run); ("C04", c04_run); ("C10", c10_run); ("C09", c09_run); ("C13", c13_run); ("C14", c14_run); ("C16", c16_run); ("C16P", c16_run_pinned); ("C19", c19_run); ("C15", c15_run); ("C17", c17_run); ("C08T", c08t_run); ("C11", c06_run); ("C02", c02_run); ("C07P", c07p_run) ]
